@@ -226,6 +226,15 @@ func (sc *Scheduler) Schedule(ctx context.Context, g *ExecutionGraph, done chan 
 					}
 					break ExecRepeat
 				}
+				// Close the attempt's files before the node is finished: a step
+				// whose output cannot be flushed has failed, and must not be
+				// seen as succeeded in between (its dependents would start).
+				if !released {
+					if err := sc.teardownNode(node); err != nil {
+						sc.setLastError(err)
+						node.setStatus(NodeStatusError)
+					}
+				}
 				// finish the node
 				if node.State().Status == NodeStatusRunning {
 					if executed {
@@ -240,12 +249,6 @@ func (sc *Scheduler) Schedule(ctx context.Context, g *ExecutionGraph, done chan 
 					// The run was stopped before this retry was executed: what
 					// the step printed is in the log of its last attempt.
 					node.setLog(prevLog)
-				}
-				if !released {
-					if err := sc.teardownNode(node); err != nil {
-						sc.setLastError(err)
-						node.setStatus(NodeStatusError)
-					}
 				}
 				if done != nil {
 					done <- node
